@@ -9,4 +9,4 @@ mkdir -p .work evidence replays
 cd coq
 coq_makefile -f _CoqProject -o Makefile
 make clean >/dev/null 2>&1 || true
-timeout 3000 make -k -j16
+( ulimit -v 12000000; timeout 3000 make -k -j16 COQC="timeout 900 coqc" )
